@@ -84,6 +84,9 @@ def CS.endCall (s : CS) (c : Call) (from_ : String) (sessUid : String) (timeout 
   let hang := s.att.map (fun (sid, uid) => (sid, infoFrame uid "" c.seq "hang-up" ""))
   ({ s with call := none }, fr ++ hang)
 
+/-- the establishment timer: armed by the invitation, stopped by the acceptance and when the call ends -/
+def CS.timerArmed (s : CS) : Bool := match s.call with | some c => !c.accepted | none => false
+
 /-- terminateCallInProgress: server-initiated, on behalf of the originator's session -/
 def CS.terminate (s : CS) (timeout : Bool) : CS × Frames :=
   match s.call with
